@@ -1,1 +1,295 @@
-//! placeholder
+//! G-REQ: request grammar with structural hostility and byte-level mutators; the harness's lenient request-line pre-parser.
+#![allow(dead_code)]
+use super::tree::{EntrySpec, TreeSpec};
+use super::util::{pick_idx, Bytes};
+use proptest::prelude::*;
+use serde::{Deserialize, Serialize};
+
+pub const METHODS: [&str; 9] = ["GET", "HEAD", "POST", "PUT", "DELETE", "CONNECT", "OPTIONS", "TRACE", "PATCH"];
+pub const VERSIONS: [&str; 4] = ["HTTP/0.9", "HTTP/1.0", "HTTP/1.1", "HTTP/2.0"];
+
+#[derive(Clone, Debug, Serialize, Deserialize, PartialEq, Eq, Hash)]
+pub struct Base {
+    pub method: String,
+    pub target: String,
+    pub version: String,
+    pub headers: Vec<(String, Bytes)>,
+    pub body: Bytes,
+}
+
+#[derive(Clone, Debug, Serialize, Deserialize, PartialEq, Eq, Hash)]
+pub enum Mut {
+    /// cut the request after a fraction of its length
+    Truncate(u16),
+    DeleteAt(u16, u8),
+    InsertAt(u16, Bytes),
+    ReplaceAt(u16, Bytes),
+    /// remove the n-th CR / duplicate the n-th LF / remove the n-th LF
+    DropCr(u16), DupLf(u16), DropLf(u16),
+    /// flip one bit
+    Flip(u16, u8),
+    /// append k filler header lines ("a:b" style, `width` bytes each) before the blank line
+    ManyHeaders { count: u16, width: u8 },
+    /// pad the body up to (buffer size + delta)
+    Oversize(u16),
+}
+
+#[derive(Clone, Debug, Serialize, Deserialize, PartialEq, Eq, Hash)]
+pub struct ReqCase { pub base: Base, pub muts: Vec<Mut> }
+
+impl Base {
+    pub fn render(&self) -> Vec<u8> {
+        let mut v = Vec::new();
+        v.extend_from_slice(self.method.as_bytes()); v.push(b' ');
+        v.extend_from_slice(self.target.as_bytes()); v.push(b' ');
+        v.extend_from_slice(self.version.as_bytes()); v.extend_from_slice(b"\r\n");
+        for (n, val) in &self.headers { v.extend_from_slice(n.as_bytes()); v.extend_from_slice(b": "); v.extend_from_slice(&val.0); v.extend_from_slice(b"\r\n"); }
+        v.extend_from_slice(b"\r\n");
+        v.extend_from_slice(&self.body.0);
+        v
+    }
+}
+
+fn nth_pos(v: &[u8], byte: u8, n: u16) -> Option<usize> {
+    let pos: Vec<usize> = v.iter().enumerate().filter(|(_, b)| **b == byte).map(|(i, _)| i).collect();
+    if pos.is_empty() { None } else { Some(pos[pick_idx(n, pos.len())]) }
+}
+
+impl ReqCase {
+    pub fn render(&self, bufsize: usize) -> Vec<u8> {
+        let mut v = self.base.render();
+        for m in &self.muts {
+            match m {
+                Mut::Truncate(f) => { let k = pick_idx(*f, v.len() + 1); v.truncate(k); }
+                Mut::DeleteAt(p, n) => { if !v.is_empty() { let i = pick_idx(*p, v.len()); let e = (i + *n as usize + 1).min(v.len()); v.drain(i..e); } }
+                Mut::InsertAt(p, b) => { let i = pick_idx(*p, v.len() + 1); let tail = v.split_off(i); v.extend_from_slice(&b.0); v.extend_from_slice(&tail); }
+                Mut::ReplaceAt(p, b) => { if !v.is_empty() { let i = pick_idx(*p, v.len()); for (k, x) in b.0.iter().enumerate() { if i + k < v.len() { v[i + k] = *x; } } } }
+                Mut::DropCr(n) => { if let Some(i) = nth_pos(&v, b'\r', *n) { v.remove(i); } }
+                Mut::DropLf(n) => { if let Some(i) = nth_pos(&v, b'\n', *n) { v.remove(i); } }
+                Mut::DupLf(n) => { if let Some(i) = nth_pos(&v, b'\n', *n) { v.insert(i, b'\n'); } }
+                Mut::Flip(p, bit) => { if !v.is_empty() { let i = pick_idx(*p, v.len()); v[i] ^= 1 << (bit % 8); } }
+                Mut::ManyHeaders { count, width } => {
+                    let at = super::util::find_sub(&v, b"\r\n\r\n").map(|p| p + 2).unwrap_or(v.len());
+                    let tail = v.split_off(at);
+                    let w = (*width).max(2) as usize;
+                    for k in 0..*count as usize {
+                        // "a:" + filler, then LF only for the narrowest lines, CRLF otherwise
+                        let mut line = vec![b'a' + (k % 26) as u8, b':'];
+                        while line.len() + 1 < w { line.push(b'x'); }
+                        if w <= 3 { line.truncate(w - 1); line.push(b'\n'); } else { line.truncate(w - 2); line.extend_from_slice(b"\r\n"); }
+                        v.extend_from_slice(&line);
+                    }
+                    v.extend_from_slice(&tail);
+                }
+                Mut::Oversize(delta) => { let want = bufsize + (*delta as usize % 3000); while v.len() < want { v.push(b'A' + (v.len() % 26) as u8); } }
+            }
+        }
+        v
+    }
+}
+
+/// What the harness's lenient pre-parser says about the request line of the bytes the server will see.
+#[derive(Clone, Debug, PartialEq, Eq)]
+pub enum LineClass {
+    /// known method (exact upper case), target, known version (exact), exactly three fields
+    Valid { method: String, target: String },
+    /// must be rejected: not UTF-8, fewer than three fields, or (three clean fields and) unknown method / version even ignoring case
+    MustReject(&'static str),
+    /// everything else: lower case, extra blanks, tabs ... (no status is demanded)
+    Unspecified { method_guess: String },
+}
+
+pub fn classify_request_line(seen: &[u8]) -> LineClass {
+    let terminated = seen.iter().any(|b| *b == b'\n');
+    let end = seen.iter().position(|b| *b == b'\n').map(|p| p + 1).unwrap_or(seen.len());
+    let line = &seen[..end];
+    let l = match std::str::from_utf8(line) { Ok(l) => l, Err(_) => return LineClass::MustReject("request-line-not-utf8") };
+    let l = l.trim_end_matches(|c| c == '\r' || c == '\n');
+    let t = l.trim();
+    if t.is_empty() { return LineClass::MustReject("request-line-empty"); }
+    let fields: Vec<&str> = t.split(' ').collect();
+    if fields.len() < 3 { return LineClass::MustReject("request-line-fewer-than-three-fields"); }
+    let method_guess = fields[0].to_uppercase();
+    let odd = t != l || t.chars().any(|c| (c.is_whitespace() && c != ' ') || c == '\0') || fields.len() > 3 || fields.iter().any(|f| f.is_empty());
+    if odd { return LineClass::Unspecified { method_guess }; }
+    let (m, tg, v) = (fields[0], fields[1], fields[2]);
+    // a request line without its terminator is incomplete: the server sees it followed by the zero padding of its buffer; outcome not fixed
+    if !terminated { return LineClass::Unspecified { method_guess }; }
+    if METHODS.contains(&m) && VERSIONS.contains(&v) { return LineClass::Valid { method: m.to_string(), target: tg.to_string() }; }
+    if !METHODS.contains(&m.to_uppercase().as_str()) { return LineClass::MustReject("unknown-method"); }
+    if !VERSIONS.contains(&v.to_uppercase().as_str()) { return LineClass::MustReject("unknown-version"); }
+    LineClass::Unspecified { method_guess }
+}
+
+// ---- fixed small docroot used by the C04/C05/C10 campaigns --------------------------------------
+pub fn fixed_tree() -> TreeSpec {
+    TreeSpec {
+        levels_above: 2, root_name: "docroot".into(), root_index: None, root_404: None, salt: 0x5eed,
+        entries: vec![
+            EntrySpec::File { name: "a.txt".into(), size: 10 },
+            EntrySpec::File { name: "big.bin".into(), size: 70000 },
+            EntrySpec::File { name: "page.html".into(), size: 300 },
+            EntrySpec::File { name: "empty.bin".into(), size: 0 },
+            EntrySpec::File { name: "é.txt".into(), size: 64 },
+            EntrySpec::File { name: "noext".into(), size: 100 },
+            EntrySpec::Dir { name: "sub".into(), index: Some(200), entries: vec![EntrySpec::File { name: "x.json".into(), size: 50 }, EntrySpec::Dir { name: "deep".into(), index: None, entries: vec![EntrySpec::File { name: "y.png".into(), size: 4097 }] }] },
+            EntrySpec::Dir { name: "noindex".into(), index: None, entries: vec![EntrySpec::File { name: "z.css".into(), size: 20 }] },
+            EntrySpec::LinkToFile { name: "link.txt".into(), target: 0, style: 0 },
+            EntrySpec::LinkToOutsideDir { name: "outdir".into() },
+        ],
+    }
+}
+
+pub const FIXED_PATHS: [&str; 22] = ["/", "/a.txt", "/big.bin", "/page.html", "/page", "/empty.bin", "/é.txt", "/noext", "/sub", "/sub/", "/sub/index.html", "/sub/x.json", "/sub/deep/y.png",
+    "/noindex", "/noindex/", "/noindex/z.css", "/link.txt", "/outdir/f.txt", "/missing", "/style.css", "/script.js", "/favicon.svg"];
+
+// ---- strategies -----------------------------------------------------------------------------------
+pub fn method_strategy() -> impl Strategy<Value = String> {
+    prop_oneof![
+        14 => prop::sample::select(vec!["GET", "GET", "GET", "GET", "HEAD", "POST", "PUT", "DELETE", "CONNECT", "OPTIONS", "TRACE", "PATCH"]).prop_map(|s| s.to_string()),
+        2 => prop::sample::select(vec!["get", "head", "Post", "options"]).prop_map(|s| s.to_string()),
+        1 => prop::sample::select(vec!["FOO", "GETT", "", "G", "PROPFIND", "GÉT", "\u{0}GET"]).prop_map(|s| s.to_string()),
+    ]
+}
+
+pub fn version_strategy() -> impl Strategy<Value = String> {
+    prop_oneof![
+        14 => prop::sample::select(vec!["HTTP/1.1", "HTTP/1.1", "HTTP/1.1", "HTTP/1.0", "HTTP/0.9", "HTTP/2.0"]).prop_map(|s| s.to_string()),
+        1 => prop::sample::select(vec!["http/1.1", "HTTP/1.2", "HTTP/3", "HTTP", "", "HTTP/1.1 ", "HTTP/1.1x"]).prop_map(|s| s.to_string()),
+    ]
+}
+
+pub fn target_strategy() -> impl Strategy<Value = String> {
+    let q = prop_oneof![
+        4 => Just("".to_string()), 1 => Just("?q=1".to_string()), 1 => Just("#f".to_string()), 1 => Just("?a=b&c=d#e".to_string()), 1 => Just("?".to_string()), 1 => Just("?%".to_string()),
+        1 => Just("?a=%zz&=&&b".to_string()), 1 => Just("?name=f.bin&lastModified=1&size=10".to_string()),
+    ];
+    prop_oneof![
+        10 => (prop::sample::select(FIXED_PATHS.to_vec()), q.clone()).prop_map(|(p, q)| format!("{}{}", p, q)),
+        3 => (prop::sample::select(vec!["/form-get-method", "/form-url-encoded-enctype-post-method", "/form-multipart-enctype-post-method", "/file-upload/initiate"]), q.clone()).prop_map(|(p, q)| format!("{}{}", p, q)),
+        // targets without a leading slash and other non-origin forms
+        3 => prop::sample::select(vec!["x", "?", "#", "@h/a.txt", ":abc/", "http://h/a.txt", "//h/a.txt", "*", "a.txt", "h:99999999999999999999/a.txt", "http://h:x/", "http://[::1]:80/a.txt", "http://u:p@h:8/a.txt", "?q", "#?", ":/", "@", "http://", "//", "/.", "h:/a.txt", "h:-1/a.txt", "[::1]/a.txt", "user@:80/"]).prop_map(|s| s.to_string()),
+        1 => "[ -~&&[^ ]]{1,40}",
+        1 => proptest::collection::vec(prop::sample::select(vec!["/", "a", "%", "?", "#", ":", "@", ".", "é", "\\", "=", "&", "+", ";", "[", "]", "%00", "%2e"]), 1..30).prop_map(|v| v.concat()),
+        1 => (1usize..12000).prop_map(|n| format!("/{}", "a".repeat(n))),
+        1 => (1usize..3000).prop_map(|n| format!("/{}", "a/".repeat(n))),
+        1 => (1usize..3000).prop_map(|n| format!("/a.txt?{}", "k=v&".repeat(n))),
+    ]
+}
+
+fn hostile_text() -> impl Strategy<Value = Bytes> {
+    prop_oneof![
+        2 => prop::sample::select(vec!["https://foo.example", "null", "*", "", " ", "a: b", "a,b", "http://x\ry", "http://x\ny", "x\r\nInjected: 1", "x\nInjected: 1", "x\rInjected: 1", "\0", "x\0y", ": ", ":", "\t", "é", "a\r\n\r\nHTTP/1.1 200 OK\r\n\r\n"]).prop_map(|s| Bytes(s.as_bytes().to_vec())),
+        1 => proptest::collection::vec(any::<u8>(), 0..40).prop_map(|mut v| { v.retain(|b| *b != b'\n'); Bytes(v) }),
+        1 => "[ -~]{0,60}".prop_map(|s| Bytes(s.into_bytes())),
+    ]
+}
+
+pub fn range_value() -> impl Strategy<Value = Bytes> {
+    let num = prop_oneof![
+        4 => (0u64..12).prop_map(|n| n.to_string()), 1 => Just("9".to_string()), 1 => Just("10".to_string()), 1 => Just("11".to_string()), 1 => Just("69999".to_string()), 1 => Just("70000".to_string()),
+        1 => Just("9223372036854775807".to_string()), 1 => Just("9223372036854775808".to_string()), 1 => Just("18446744073709551615".to_string()), 1 => Just("18446744073709551616".to_string()),
+        1 => Just("".to_string()), 1 => Just("x".to_string()), 1 => Just("-1".to_string()), 1 => Just("1e3".to_string()), 1 => Just(" 3".to_string()), 1 => Just("99999999999999999999999999".to_string()),
+    ];
+    let spec = prop_oneof![
+        3 => (num.clone(), num.clone()).prop_map(|(a, b)| format!("{}-{}", a, b)),
+        1 => num.clone().prop_map(|a| format!("{}-", a)),
+        1 => num.clone().prop_map(|a| format!("-{}", a)),
+        1 => (num.clone(), num.clone(), num.clone()).prop_map(|(a, b, c)| format!("{}-{}-{}", a, b, c)),
+        1 => Just("".to_string()), 1 => Just("-".to_string()), 1 => Just("--".to_string()),
+    ];
+    (prop::sample::select(vec!["bytes=", "bytes=", "bytes=", "bytes =", "byte=", "", "bytes", "BYTES=", "bytes==", "items="]), proptest::collection::vec(spec, 1..5), prop::sample::select(vec![",", ", ", " ,", ",,"]))
+        .prop_map(|(u, s, sep)| Bytes(format!("{}{}", u, s.join(sep)).into_bytes()))
+}
+
+pub fn headers_strategy() -> impl Strategy<Value = Vec<(String, Bytes)>> {
+    let one = prop_oneof![
+        3 => Just(("Host".to_string(), Bytes(b"localhost".to_vec()))),
+        2 => hostile_text().prop_map(|v| ("Host".to_string(), v)),
+        4 => hostile_text().prop_map(|v| ("Origin".to_string(), v)),
+        2 => hostile_text().prop_map(|v| ("Access-Control-Request-Method".to_string(), v)),
+        2 => hostile_text().prop_map(|v| ("Access-Control-Request-Headers".to_string(), v)),
+        5 => range_value().prop_map(|v| ("Range".to_string(), v)),
+        1 => range_value().prop_map(|v| ("range".to_string(), v)),
+        2 => prop::sample::select(vec!["application/x-www-form-urlencoded", "multipart/form-data; boundary=XB", "multipart/form-data", "multipart/form-data; boundary=", "multipart/form-data; boundary=--", "text/plain", "APPLICATION/X-WWW-FORM-URLENCODED", "multipart/form-data; boundary=\u{0}"]).prop_map(|s| ("Content-Type".to_string(), Bytes(s.as_bytes().to_vec()))),
+        1 => hostile_text().prop_map(|v| ("Content-Type".to_string(), v)),
+        3 => prop::sample::select(vec!["0", "5", "a", "", "-1", "99999999999999999999999999", "1 2", "0x10", "18446744073709551615", "18446744073709551616", " 7", "7 "]).prop_map(|s| ("Content-Length".to_string(), Bytes(s.as_bytes().to_vec()))),
+        2 => ("[A-Za-z][A-Za-z0-9-]{0,20}", hostile_text()),
+        1 => ("[ -~&&[^:]]{0,12}", hostile_text()),
+    ];
+    proptest::collection::vec(one, 0..8)
+}
+
+pub fn multipart_body() -> impl Strategy<Value = Bytes> {
+    let part = prop_oneof![
+        4 => ("[a-z]{1,6}", "[ -~]{0,20}").prop_map(|(n, v)| format!("Content-Disposition: form-data; name=\"{}\"\r\n\r\n{}\r\n", n, v).into_bytes()),
+        1 => ("[a-z]{1,6}", proptest::collection::vec(any::<u8>(), 0..30)).prop_map(|(n, v)| { let mut b = format!("Content-Disposition: form-data; name=\"{}\"; filename=\"f.bin\"\r\nContent-Type: application/octet-stream\r\n\r\n", n).into_bytes(); b.extend_from_slice(&v); b.extend_from_slice(b"\r\n"); b }),
+        1 => Just(b"Content-Disposition: form-data\r\n\r\nv\r\n".to_vec()),
+        1 => Just(b"X-Other: 1\r\n\r\nv\r\n".to_vec()),
+        1 => Just(b"\r\nv\r\n".to_vec()),
+        1 => Just(b"Content-Disposition: form-data; name=\"a\"\r\n".to_vec()),
+        1 => Just(b"Content-Disposition form-data\r\n\r\nv\r\n".to_vec()),
+        1 => Just(b"Content-Disposition: form-data; name=\"a\"\r\n\r\n".to_vec()),
+    ];
+    (proptest::collection::vec(part, 0..4), prop::sample::select(vec!["--XB--\r\n", "--XB--", "--XB\r\n", "", "XB"]), prop::sample::select(vec!["--XB\r\n", "--XB\r\n", "XB\r\n", "", "--YB\r\n"]))
+        .prop_map(|(parts, end, start)| { let mut b = start.as_bytes().to_vec(); for (i, p) in parts.iter().enumerate() { if i > 0 { b.extend_from_slice(b"--XB\r\n"); } b.extend_from_slice(p); } b.extend_from_slice(end.as_bytes()); Bytes(b) })
+}
+
+pub fn body_strategy() -> impl Strategy<Value = Bytes> {
+    prop_oneof![
+        6 => Just(Bytes(vec![])),
+        2 => "[a-z]{1,5}=[a-z0-9%+]{0,8}(&[a-z]{1,5}=[ -~]{0,8}){0,3}".prop_map(|s| Bytes(s.into_bytes())),
+        2 => proptest::collection::vec(any::<u8>(), 0..60).prop_map(Bytes),
+        2 => multipart_body(),
+        1 => Just(Bytes(b"a=%ff%fe&b=\xff\xfe".to_vec())),
+        1 => Just(Bytes(b"=&&==&".to_vec())),
+    ]
+}
+
+/// Coherent valid-ish requests to each endpoint (so that mutation reaches the handlers' logic).
+pub fn coherent_base() -> impl Strategy<Value = Base> {
+    prop_oneof![
+        3 => (prop::sample::select(FIXED_PATHS.to_vec()), proptest::option::weighted(0.4, range_value()), proptest::option::weighted(0.3, hostile_text())).prop_map(|(p, r, o)| {
+            let mut h = vec![("Host".to_string(), Bytes(b"localhost".to_vec()))];
+            if let Some(r) = r { h.push(("Range".to_string(), r)); }
+            if let Some(o) = o { h.push(("Origin".to_string(), o)); }
+            Base { method: "GET".into(), target: p.to_string(), version: "HTTP/1.1".into(), headers: h, body: Bytes(vec![]) }
+        }),
+        1 => body_strategy().prop_map(|b| Base { method: "POST".into(), target: "/form-url-encoded-enctype-post-method".into(), version: "HTTP/1.1".into(), headers: vec![("Content-Type".into(), Bytes(b"application/x-www-form-urlencoded".to_vec()))], body: b }),
+        1 => multipart_body().prop_map(|b| Base { method: "POST".into(), target: "/form-multipart-enctype-post-method".into(), version: "HTTP/1.1".into(), headers: vec![("Content-Type".into(), Bytes(b"multipart/form-data; boundary=XB".to_vec()))], body: b }),
+        1 => body_strategy().prop_map(|b| Base { method: "POST".into(), target: "/form-multipart-enctype-post-method".into(), version: "HTTP/1.1".into(), headers: vec![("Content-Type".into(), Bytes(b"multipart/form-data; boundary=XB".to_vec()))], body: b }),
+        1 => ("[a-z]{0,4}", "[ -~&&[^ #]]{0,12}").prop_map(|(k, v)| Base { method: "GET".into(), target: format!("/form-get-method?{}={}", k, v), version: "HTTP/1.1".into(), headers: vec![], body: Bytes(vec![]) }),
+        1 => "[ -~&&[^ #]]{0,30}".prop_map(|q| Base { method: "POST".into(), target: format!("/file-upload/initiate?{}", q), version: "HTTP/1.1".into(), headers: vec![], body: Bytes(vec![]) }),
+        1 => Just(Base { method: "POST".into(), target: "/file-upload/initiate?name=a&lastModified=1&size=3".into(), version: "HTTP/1.1".into(), headers: vec![], body: Bytes(vec![]) }),
+        1 => (prop::sample::select(vec!["OPTIONS", "HEAD"]), prop::sample::select(FIXED_PATHS.to_vec()), hostile_text(), hostile_text(), hostile_text()).prop_map(|(m, p, o, a, b)|
+            Base { method: m.to_string(), target: p.to_string(), version: "HTTP/1.1".into(), headers: vec![("Origin".into(), o), ("Access-Control-Request-Method".into(), a), ("Access-Control-Request-Headers".into(), b)], body: Bytes(vec![]) }),
+    ]
+}
+
+pub fn free_base() -> impl Strategy<Value = Base> {
+    (method_strategy(), target_strategy(), version_strategy(), headers_strategy(), body_strategy())
+        .prop_map(|(method, target, version, headers, body)| Base { method, target, version, headers, body })
+}
+
+pub fn mut_strategy() -> impl Strategy<Value = Mut> {
+    let bytes = prop_oneof![
+        3 => prop::sample::select(vec!["\r", "\n", "\r\n", "\0", " ", ":", ": ", "\u{ff}", "%", "\t", "--", "=", "&", "\r\n\r\n", "é"]).prop_map(|s| if s == "\u{ff}" { Bytes(vec![0xff]) } else { Bytes(s.as_bytes().to_vec()) }),
+        1 => proptest::collection::vec(any::<u8>(), 1..6).prop_map(Bytes),
+    ];
+    prop_oneof![
+        3 => any::<u16>().prop_map(Mut::Truncate),
+        2 => (any::<u16>(), 0u8..4).prop_map(|(p, n)| Mut::DeleteAt(p, n)),
+        3 => (any::<u16>(), bytes.clone()).prop_map(|(p, b)| Mut::InsertAt(p, b)),
+        2 => (any::<u16>(), bytes).prop_map(|(p, b)| Mut::ReplaceAt(p, b)),
+        1 => any::<u16>().prop_map(Mut::DropCr), 1 => any::<u16>().prop_map(Mut::DupLf), 1 => any::<u16>().prop_map(Mut::DropLf),
+        1 => (any::<u16>(), 0u8..8).prop_map(|(p, b)| Mut::Flip(p, b)),
+        1 => (prop_oneof![4 => 1u16..200, 2 => 200u16..3000, 2 => 3000u16..6000], prop_oneof![3 => Just(2u8), 2 => Just(3u8), 2 => 4u8..40]).prop_map(|(count, width)| Mut::ManyHeaders { count, width }),
+        1 => any::<u16>().prop_map(Mut::Oversize),
+    ]
+}
+
+pub fn case_strategy() -> impl Strategy<Value = ReqCase> {
+    let base = prop_oneof![5 => coherent_base(), 4 => free_base()];
+    (base, prop_oneof![4 => Just(vec![]), 4 => proptest::collection::vec(mut_strategy(), 1..=1), 2 => proptest::collection::vec(mut_strategy(), 2..=4)])
+        .prop_map(|(base, muts)| ReqCase { base, muts })
+}
